@@ -56,6 +56,9 @@ enum Follow {
     /// the setters run while an append handle (opened before them) is still open; it is written
     /// to and dropped afterwards: on the in-memory backend `created` must keep the value set
     AppendHandleOpenAcrossSetters,
+    /// the entry is read (open + read, or listed) BEFORE the setters: whatever the backend noted
+    /// for that access must not outlive an explicit setter
+    ReadBeforeSetters,
 }
 
 struct Case {
@@ -210,8 +213,9 @@ pub fn run_c19(ctx: &Ctx) -> i32 {
                         Follow::CopyToSibling,
                         Follow::Read,
                         Follow::AppendHandleOpenAcrossSetters,
+                        Follow::ReadBeforeSetters,
                     ] {
-                        if is_dir && follow != Follow::Nothing {
+                        if is_dir && !matches!(follow, Follow::Nothing | Follow::ReadBeforeSetters) {
                             continue;
                         }
                         runs += 1;
@@ -242,6 +246,11 @@ pub fn run_c19(ctx: &Ctx) -> i32 {
                             replay: json!({"engine": "time", "case": case.label, "kind": kind, "setters": seq.iter().map(|f| fname(*f)).collect::<Vec<_>>(), "first_value": ts[ti].0, "follow_up": format!("{:?}", follow)}),
                         };
                         let mut set_values: BTreeMap<&'static str, SystemTime> = BTreeMap::new();
+                        if follow == Follow::ReadBeforeSetters {
+                            let _ = PathApi::read_all(&p);
+                            let _ = PathApi::read_dir(&p);
+                            let _ = p.read_to_string();
+                        }
                         let mut open_handle = if follow == Follow::AppendHandleOpenAcrossSetters {
                             p.append_file().ok()
                         } else {
@@ -451,7 +460,7 @@ pub fn run_c19(ctx: &Ctx) -> i32 {
                                     }
                                 }
                             }
-                            Follow::AppendHandleOpenAcrossSetters => {}
+                            Follow::AppendHandleOpenAcrossSetters | Follow::ReadBeforeSetters => {}
                             Follow::Read => {
                                 if PathApi::read_all(&p).is_ok() {
                                     if let (Ok(bm), Ok(am)) = (&before, PathApi::metadata(&p)) {
